@@ -7,3 +7,5 @@ import Adsg.Props.C04
 #print axioms Adsg.C04.repAssigns_rows
 #print axioms Adsg.C04.repAssigns_admissible
 #print axioms Adsg.C04.declared_product
+#print axioms Adsg.C04.decode_onto
+#print axioms Adsg.C04.fixed_rows_injective
